@@ -261,8 +261,23 @@ func runC20(r *Run, stratum string) *Violation {
 		if g.Choose("nopre", 12) == 0 {
 			want = 0
 		}
+		// values that will be replayed in several chunks: half of the time all of them are on the target already (several
+		// chunked pre-existing values at once, spread over the replay workers)
+		var chunky []*rdbgen.Key
+		for _, k := range ds.Keys {
+			if cfg.ChunkAt > 0 && k.Enc.Type == rdbgen.THash && len(ss.bodyOf[k]) > cfg.ChunkAt && !simredis.IsReservedKey(k.Name) {
+				chunky = append(chunky, k)
+			}
+		}
+		allChunky := len(chunky) >= 2 && g.Choose("prechunky", 2) == 1
+		if allChunky && want < len(chunky) {
+			want = len(chunky)
+		}
 		for i := 0; i < want && nSnapPre < 20; i++ {
 			k := ds.Keys[g.Choose("prekey", len(ds.Keys))]
+			if allChunky && i < len(chunky) {
+				k = chunky[i]
+			}
 			tdb := cfg.mapDB(k.DB)
 			id := fmt.Sprintf("%d/%s", tdb, k.Name)
 			if pre[id] != nil || simredis.IsReservedKey(k.Name) {
